@@ -66,23 +66,25 @@ def opName : Op → String
   | .moreEqual => "MoreEqual" | .lessEqual => "LessEqual" | .in_ => "In" | .getElement => "GetElement"
 
 /-- the evaluator's dispatch: which IVariantOperations method each token type calls and in which
-operand order (`In` receives (value2, value1): container first) -/
+operand order, operands named by the order in which the case pops them off the stack: `pop1` is popped
+first (the operand written last), so `M(pop2, pop1)` is `M(left, right)`; `In` receives (pop1, pop2): the
+container, written last, first -/
 theorem evalDispatch_tie :
     evalDispatch =
-      [("And", "And", "value1,value2"), ("Or", "Or", "value1,value2"), ("Xor", "Xor", "value1,value2"),
-       ("Not", "Not", "value"),
-       ("Plus", "Add", "value1,value2"), ("Minus", "Sub", "value1,value2"), ("Star", "Mul", "value1,value2"),
-       ("Slash", "Div", "value1,value2"), ("Procent", "Mod", "value1,value2"), ("Power", "Pow", "value1,value2"),
-       ("Unary", "Negative", "value"), ("ShiftLeft", "Lsh", "value1,value2"), ("ShiftRight", "Rsh", "value1,value2"),
-       ("Equal", "Equal", "value1,value2"), ("NotEqual", "NotEqual", "value1,value2"), ("More", "More", "value1,value2"),
-       ("Less", "Less", "value1,value2"), ("EqualMore", "MoreEqual", "value1,value2"),
-       ("EqualLess", "LessEqual", "value1,value2"),
-       ("In", "In", "value2,value1"), ("NotIn", "In", "value2,value1"), ("Element", "GetElement", "value1,value2")] := by
+      [("And", "And", "pop2,pop1"), ("Or", "Or", "pop2,pop1"), ("Xor", "Xor", "pop2,pop1"),
+       ("Not", "Not", "pop1"),
+       ("Plus", "Add", "pop2,pop1"), ("Minus", "Sub", "pop2,pop1"), ("Star", "Mul", "pop2,pop1"),
+       ("Slash", "Div", "pop2,pop1"), ("Procent", "Mod", "pop2,pop1"), ("Power", "Pow", "pop2,pop1"),
+       ("Unary", "Negative", "pop1"), ("ShiftLeft", "Lsh", "pop2,pop1"), ("ShiftRight", "Rsh", "pop2,pop1"),
+       ("Equal", "Equal", "pop2,pop1"), ("NotEqual", "NotEqual", "pop2,pop1"), ("More", "More", "pop2,pop1"),
+       ("Less", "Less", "pop2,pop1"), ("EqualMore", "MoreEqual", "pop2,pop1"),
+       ("EqualLess", "LessEqual", "pop2,pop1"),
+       ("In", "In", "pop1,pop2"), ("NotIn", "In", "pop1,pop2"), ("Element", "GetElement", "pop2,pop1")] := by
   decide
 
 /-- … and the model's `etOp` is that table (written order operands) -/
 theorem etOp_tie :
-    (evalDispatch.filter (fun e => e.2.2 == "value1,value2" && e.1 != "Element")).map (fun e => (e.1, e.2.1)) =
+    (evalDispatch.filter (fun e => e.2.2 == "pop2,pop1" && e.1 != "Element")).map (fun e => (e.1, e.2.1)) =
       ([ET.and, .or, .xor, .plus, .minus, .star, .slash, .procent, .power, .shiftLeft, .shiftRight, .equal,
         .notEqual, .more, .less, .equalMore, .equalLess].map fun t => (etName t, ((etOp t).map opName).getD "")) := by
   decide
